@@ -267,6 +267,7 @@ class Block:
     ensures: list = field(default_factory=list)
     rewrites: list = field(default_factory=list)
     real_name: str | None = None
+    arm: bool = False                # the anchor ends with `=>`: take the whole arm expression (block or not) as the body
     expand_or_guards: int = 0        # R10c: number of or-pattern+guard arms of the block's match to expand (0 = rule not applied)
 
 
@@ -558,20 +559,44 @@ def extract_block(repo: Path, unit: VUnit, b: Block) -> tuple[str, dict]:
     m = re.search(b.anchor, fn_text, re.S)
     if not m:
         raise LostAnchor(f"block {b.name}: anchor /{b.anchor}/ not found in fn {b.within}")
-    i = fn_text.find("{", m.end() - 1)
-    toks = [t for t in tokenize(fn_text[i:]) if t[0] not in ("ws", "comment")]
-    depth, close = 0, None
-    for t in toks:
-        if t[0] == "punct" and t[1] == "{":
-            depth += 1
-        elif t[0] == "punct" and t[1] == "}":
-            depth -= 1
-            if depth == 0:
-                close = i + t[3]
+    if b.arm:
+        # arm expression: from the end of the anchor to the `,` / closing brace that ends the arm
+        i = m.end()
+        toks = [t for t in tokenize(fn_text[i:]) if t[0] not in ("ws", "comment")]
+        depth, close, first = 0, None, True
+        for k, t in enumerate(toks):
+            if t[0] == "punct" and t[1] in "([{":
+                depth += 1
+            elif t[0] == "punct" and t[1] in ")]}":
+                depth -= 1
+                if depth < 0:
+                    close = i + t[2]
+                    break
+                if depth == 0 and t[1] == "}" and toks[0][1] == "{":
+                    close = i + t[3]          # `=> { .. }` : the arm is exactly this block
+                    break
+            elif t[0] == "punct" and t[1] == "," and depth == 0:
+                close = i + t[2]
                 break
-    if close is None:
-        raise LostAnchor(f"block {b.name}: unbalanced braces")
-    body = strip_r1(fn_text[i + 1:close - 1])
+        if close is None:
+            raise LostAnchor(f"block {b.name}: arm end not found")
+        body = strip_r1(fn_text[i:close])
+        i = i - 1
+    else:
+        i = fn_text.find("{", m.end() - 1)
+        toks = [t for t in tokenize(fn_text[i:]) if t[0] not in ("ws", "comment")]
+        depth, close = 0, None
+        for t in toks:
+            if t[0] == "punct" and t[1] == "{":
+                depth += 1
+            elif t[0] == "punct" and t[1] == "}":
+                depth -= 1
+                if depth == 0:
+                    close = i + t[3]
+                    break
+        if close is None:
+            raise LostAnchor(f"block {b.name}: unbalanced braces")
+        body = strip_r1(fn_text[i + 1:close - 1])
     info = {"file": str(b.source or unit.source), "orig_lines": (src.count("\n", 0, open_i + i) + 1, src.count("\n", 0, open_i + close) + 1), "rewrites": []}
     for rw in list(b.rewrites):
         new, n = re.subn(rw.pattern, rw.repl, body, count=rw.count, flags=rw.flags)
